@@ -15,7 +15,7 @@ import (
 //      | (1 root)               Container.Remove
 //      | (2 root route)         WebService.Route (dynamic routes are enabled on every service)
 //      | (3 root path method)   WebService.RemoveRoute
-//      | (4 pattern id)         Container.Handle with a plain handler
+//      | (4 pattern id)         Container.Handle (even id) / Container.HandleWithFilter (odd id) with a plain handler
 //   probe = (entry method path)  entry 0 Dispatch, 1 ServeHTTP
 // observation = (failed-op history-answers fresh-answers)   answer = (status marker location)
 //   failed-op: index of the first operation that panicked (the history stops there), -1 if none
@@ -224,7 +224,11 @@ func runReg(raw Sx) (Sx, Sx) {
 				s.routes = keep
 			default:
 				pat, id := sxStr(sxNth(op, 1)), sxInt(sxNth(op, 2))
-				c.Handle(pat, plain(id))
+				if id%2 == 1 {
+					c.HandleWithFilter(pat, plain(id)) // the other public entry point for plain handlers
+				} else {
+					c.Handle(pat, plain(id))
+				}
 				plains = append(plains, ph{pat, id})
 			}
 			return true
@@ -252,7 +256,11 @@ func runReg(raw Sx) (Sx, Sx) {
 			fresh.Add(ws)
 		}
 		for _, p := range plains {
-			fresh.Handle(p.pat, plain(p.id))
+			if p.id%2 == 1 {
+				fresh.HandleWithFilter(p.pat, plain(p.id))
+			} else {
+				fresh.Handle(p.pat, plain(p.id))
+			}
 		}
 	}()
 	ask := func(cc *restful.Container, pr Sx) Sx {
